@@ -25,6 +25,7 @@ type tlsSpec struct {
 }
 
 // op kinds: settls skip root cert sname force h3 h2c clone closeidle req fork
+// ("clone" with F: F is applied to the ORIGINAL after cloning, the sequence goes on with the clone: Coq op OClone)
 // ("fork" = c2 := c.Clone(); F applied to c2; one GET with c2 (+ its Alt-Svc goroutine); c2 dropped, the
 //  sequence goes on with c: Coq op OFork)
 // ("req" = one GET followed by waiting for the Alt-Svc background goroutine it may have started:
@@ -113,14 +114,14 @@ func unstableErr(err error) bool {
 	return false
 }
 
-// refAcceptable: would crypto/tls itself, given exactly the settings the client currently holds (server
-// name defaulted to the URL host as every HTTP stack does), accept this origin and be accepted by it?
-// Independent reference for "acceptable under the client's settings" (stdlib only, no req code, no model).
-func refAcceptable(c *req.Client, o *origin) (ok bool, wantSNI string) {
-	var cfg *tls.Config
-	if c.TLSClientConfig != nil {
-		cfg = c.TLSClientConfig.Clone()
-	} else {
+// refAcceptable: would crypto/tls itself, given exactly the settings the OPERATIONS applied so far have given this
+// client (tracked by the harness from the operation sequence - a clone inheriting its original's at the moment
+// of cloning - and NOT read back from the client object; server name defaulted to the URL host as every HTTP
+// stack does), accept this origin and be accepted by it?  Independent reference for "acceptable under the
+// client's settings" (stdlib only, no req code, no model).
+func refAcceptable(p *pki, want *tlsSpec, o *origin) (ok bool, wantSNI string) {
+	cfg := p.tlsConfig(want)
+	if cfg == nil {
 		cfg = &tls.Config{}
 	}
 	if cfg.ServerName == "" {
@@ -135,6 +136,39 @@ func refAcceptable(c *req.Client, o *origin) (ok bool, wantSNI string) {
 	}
 	conn.Close()
 	return true, wantSNI
+}
+
+// specAfter: the settings after one more setter call (the documented meaning of the setters: SetTLSClientConfig
+// replaces, the others change one field of the current configuration, creating one when there is none).
+func specAfter(cur *tlsSpec, x op) *tlsSpec {
+	if x.K == "settls" {
+		if x.TLS == nil || x.TLS.Nil {
+			return nil
+		}
+		t := *x.TLS
+		t.Roots = append([]int(nil), t.Roots...)
+		t.Certs = append([]int(nil), t.Certs...)
+		return &t
+	}
+	var t tlsSpec
+	if cur != nil {
+		t = *cur
+		t.Roots = append([]int(nil), cur.Roots...)
+		t.Certs = append([]int(nil), cur.Certs...)
+	}
+	switch x.K {
+	case "skip":
+		t.Skip = x.B
+	case "root":
+		t.Roots = append(t.Roots, x.N)
+	case "cert":
+		t.Certs = append(t.Certs, x.N)
+	case "sname":
+		t.SName = x.S
+	default:
+		return cur
+	}
+	return &t
 }
 
 func waitFor(d time.Duration, f func() bool) bool {
@@ -207,14 +241,18 @@ func runCell(p *pki, o *origin, cl cell, timeout time.Duration) (res cellResult)
 		return true
 	}
 	// one GET with client c (+ waiting for the Alt-Svc goroutine it may have started) and the oracle
-	doReq := func(c *req.Client, hadV3 *bool, tag string) (rec, bg obsRec) {
+	// force = the version the operations applied so far have forced on this client (tracked here from the
+	// operation sequence, a clone inheriting its original's: NOT read back from the client)
+	doReq := func(c *req.Client, hadV3 *bool, force string, want *tlsSpec, tag string) (rec, bg obsRec) {
 		viol := func(sig, what string) { violT(tag, sig, what) }
+		if got := c.GetTransport().VerifForceHTTPVersion(); got != force {
+			viol("force-lost-want-"+force+"-has-"+got, fmt.Sprintf("the operations forced version %q on this client (or its original) but the transport holds %q", force, got))
+		}
 		refOK, wantSNI := true, ""
 		if o.spec.HTTPS {
-			refOK, wantSNI = refAcceptable(c, o)
+			refOK, wantSNI = refAcceptable(p, want, o)
 		}
 		altBefore := c.GetTransport().VerifAltSvcState(u)
-		force := c.GetTransport().VerifForceHTTPVersion()
 		m := o.mark()
 		resp, err := c.R().Get(o.url())
 		rec = obsRec{Kind: "req"}
@@ -293,6 +331,9 @@ func runCell(p *pki, o *origin, cl cell, timeout time.Duration) (res cellResult)
 			how := "no-custom-dialer"
 			if c.DialTLSContext != nil {
 				how = "EnableH2C-dialer" // the harness never calls SetDialTLS: only EnableH2C installs one
+				if !c.GetTransport().VerifH2AllowHTTP() {
+					how = "stale-dialer-after-DisableH2C"
+				}
 			}
 			viol("https-in-cleartext/"+how, "https request written in clear to the TLS port: no certificate was checked")
 		}
@@ -316,13 +357,20 @@ func runCell(p *pki, o *origin, cl cell, timeout time.Duration) (res cellResult)
 		}
 		return rec, bg
 	}
+	forceName := []string{"", "1.1", "2", "3"}
+	wantForce := ""
+	var wantTLS *tlsSpec // req.C(): no roots, no name, no certificates, verification on
 	for _, x := range cl.Ops {
 		switch x.K {
 		case "clone":
+			orig := c
 			c = c.Clone()
 			hadV3 = false
+			if x.F != nil && !applyCfg(orig, *x.F) { // the ORIGINAL is changed after cloning: the clone must not notice
+				panic("clone: not a configuration op: " + x.F.K)
+			}
 		case "req":
-			rec, bg := doReq(c, &hadV3, "")
+			rec, bg := doReq(c, &hadV3, wantForce, wantTLS, "")
 			res.Obs = append(res.Obs, rec, bg)
 			continue
 		case "fork":
@@ -331,7 +379,15 @@ func runCell(p *pki, o *origin, cl cell, timeout time.Duration) (res cellResult)
 				panic("fork: not a configuration op: " + x.F.K)
 			}
 			h := false
-			rec, bg := doReq(c2, &h, "@fork")
+			f2 := wantForce
+			if x.F != nil && x.F.K == "force" {
+				f2 = forceName[x.F.N]
+			}
+			t2 := wantTLS
+			if x.F != nil {
+				t2 = specAfter(wantTLS, *x.F)
+			}
+			rec, bg := doReq(c2, &h, f2, t2, "@fork")
 			res.Obs = append(res.Obs, obsRec{Kind: "fork", Outcome: rec.Outcome, Hellos: rec.Hellos, BgHellos: bg.Hellos, Alt: bg.Alt, Detail: rec.Detail})
 			c2.GetTransport().CloseIdleConnections()
 			continue
@@ -339,6 +395,10 @@ func runCell(p *pki, o *origin, cl cell, timeout time.Duration) (res cellResult)
 			if !applyCfg(c, x) {
 				panic("unknown op " + x.K)
 			}
+			if x.K == "force" {
+				wantForce = forceName[x.N]
+			}
+			wantTLS = specAfter(wantTLS, x)
 		}
 		res.Obs = append(res.Obs, obsRec{Kind: "cfg"})
 	}
